@@ -81,7 +81,8 @@ type c13Scenario struct {
 	Goal     string   `json:"goal"`
 	Program  string   `json:"program"`
 	Text     string   `json:"text,omitempty"`
-	Single   bool     `json:"single_builtin,omitempty"` // the goal is one call of a built-in that acts at once; the context is done before the call
+	FreshPre bool     `json:"first_call_under_done_context,omitempty"` // the very first call on the new interpreter is an ExecContext under a context that is already done
+	Single   bool     `json:"single_builtin,omitempty"`                // the goal is one call of a built-in that acts at once; the context is done before the call
 }
 
 var c13Entries = []string{"query-first", "query-kth", "querysolution", "exec-directive", "exec-init", "exec-consult", "query-consult", "exec-termexp", "query-expand-term", "exec-include", "exec-ensure-loaded", "exec-consult-list", "exec-nested-include"}
@@ -136,6 +137,7 @@ func c13Gen(g *kit.Lane) c13Scenario {
 			sc.K = 1 + g.Choose(5)
 		}
 	}
+	sc.FreshPre = g.Choose(8) == 0
 	if sc.Instant == "pre" && g.Choose(2) == 0 {
 		// no loop at all: one built-in that would act at once. Nothing of it may run under a context that is already done
 		sc.Single, sc.Wrappers, sc.Finite = true, nil, true
@@ -253,6 +255,9 @@ term_expansion(probe_in, probe_out).
 	if sc.Single {
 		goal = []string{"assertz(pre_ran)", "atom_length(abc, _)", "X = 1", "set_prolog_flag(unknown, fail)", "op(200, xfx, pre_ran)"}[sc.Big%5]
 	}
+	if sc.Entry == "exec-consult-list" {
+		prog = strings.Replace(prog, "term_expansion(probe_in, probe_out).\n", "", 1)
+	}
 	sc.Goal = goal
 	sc.Program = prog
 	switch sc.Entry {
@@ -338,7 +343,18 @@ func (c13) Exec(r *kit.Run) {
 		dones++
 		return k(env)
 	})
-	if err := interp.Exec(sc.Program); err != nil {
+	if sc.FreshPre {
+		// whatever this first call does under its dead context, the interpreter must be a working one afterwards
+		dead := kit.NewSimCtx(0, kind)
+		dead.Fire()
+		err := interp.ExecContext(dead, "pre_call(1).\n")
+		r.Logf("first call on the new interpreter, under a context that is already done: %s", c13Err(err))
+		r.Fault("already-cancelled")
+		if err := interp.Exec(sc.Program); err != nil {
+			r.Fail("unusable-after-cancel", "first-call-under-done-context", "after a first ExecContext under a context that was already done (it returned %s) the interpreter cannot load a program: %s", c13Err(err), kit.CanonErr(err))
+			return
+		}
+	} else if err := interp.Exec(sc.Program); err != nil {
 		kit.Bug("c13 program does not load: %v\n%s", err, sc.Program)
 	}
 	if sc.Instant == "pre" {
@@ -427,7 +443,8 @@ func (c13) Exec(r *kit.Run) {
 		fsys.Files["f.pl"] = []byte(sc.Text)
 		fsys.Files["outer.pl"] = []byte("po(1).\n:- include(f).\npq(2).\n")
 		text := map[string]string{"exec-consult": ":- consult(f).", "exec-include": "px(1).\n:- include(f).\npy(2).\n", "exec-ensure-loaded": ":- ensure_loaded(f).",
-			"exec-consult-list": ":- [f].", "exec-nested-include": ":- ensure_loaded(outer)."}[sc.Entry]
+			"exec-consult-list": ":- [f, g].", "exec-nested-include": ":- ensure_loaded(outer)."}[sc.Entry]
+		fsys.Files["g.pl"] = []byte("pg(1).\n")
 		inGoroutine(func() {
 			before := kit.EngineGoroutines()
 			callErr = interp.ExecContext(ctx, text)
@@ -602,14 +619,15 @@ func c13Probes(r *kit.Run, interp *prolog.Interpreter, out *kit.SimWriter, sc *c
 		return
 	}
 	// term expansion still works (an aborted expansion must not leave a mode behind)
-	if !ask("expand_term(probe_in, X)", "X=probe_out") {
+	if sc.Entry == "exec-consult-list" {
+		// this entry runs without any term_expansion/2 clause: reading a text then never polls the context, and a loader
+		// that carries on after the cancelled file is not stopped by the first expansion of the next one
+	} else if !ask("expand_term(probe_in, X)", "X=probe_out") {
 		return
-	}
-	if err := interp.Exec("probe_in."); err != nil {
+	} else if err := interp.Exec("probe_in."); err != nil {
 		r.Fail("unusable-after-cancel", "probe-exec", "Exec of a text that needs term expansion after the cancelled call: %v", err)
 		return
-	}
-	if !ask("probe_out", "") {
+	} else if !ask("probe_out", "") {
 		return
 	}
 	// a text whose load was aborted by the cancel defines nothing: the dynamic predicate it re-declares keeps its old clause.
@@ -624,6 +642,13 @@ func c13Probes(r *kit.Run, interp *prolog.Interpreter, out *kit.SimWriter, sc *c
 			want = "" // the call ended in some other way; covered by the checks above
 		}
 		if want != "" && !ask("findall(X, dz(X), L)", want) {
+			return
+		}
+		if !committed && cancelled && sc.Entry == "exec-consult-list" {
+			r.Probe("consult-list-cancelled-in-first-file")
+		}
+		if !committed && cancelled && sc.Entry == "exec-consult-list" && interp.QuerySolution("catch(pg(1), _, fail).").Err() == nil {
+			r.Fail("unusable-after-cancel", "list-continued-after-cancelled-file", "consult([f, g]) was cancelled inside f (nothing of f is visible), yet g was loaded afterwards")
 			return
 		}
 		if !committed && cancelled {
